@@ -44,6 +44,7 @@ type directives struct {
 
 func parseDirectives(files []string) (*directives, error) {
 	d := &directives{}
+	var mainModels [][2]string // the harness file's own models override those of included files
 	for fi, f := range files {
 		fh, err := os.Open(f)
 		if err != nil {
@@ -78,7 +79,11 @@ func parseDirectives(files []string) (*directives, error) {
 				if len(fs) < 2 {
 					return nil, fmt.Errorf("bad model directive: %s", line)
 				}
-				d.models = append(d.models, [2]string{fs[0], fs[1]})
+				if fi == 0 {
+					mainModels = append(mainModels, [2]string{fs[0], fs[1]})
+				} else {
+					d.models = append(d.models, [2]string{fs[0], fs[1]})
+				}
 			case "model-re":
 				fs := strings.Fields(val)
 				if len(fs) < 2 {
@@ -93,6 +98,7 @@ func parseDirectives(files []string) (*directives, error) {
 		}
 		fh.Close()
 	}
+	d.models = append(d.models, mainModels...)
 	if d.pkg == "" {
 		return nil, fmt.Errorf("no //vsym:pkg directive")
 	}
